@@ -11,7 +11,7 @@ ID = "C08"
 LEVEL = "exploration"
 RULE = ("Hypothesis stateful testing: one RuleBasedStateMachine per optimizer owns ONE optimizer instance. Rules: "
         "optimize(task, seed) on tasks of any encoding / dimension / direction (so consecutive runs differ), with "
-        "configurations that stop by max_cycles, fitness_error or early stopping; set_config_parameters(d) between "
+        "configurations that stop by max_cycles, fitness_error or early stopping (one configuration in four is a long run of 15..30 cycles quick / ..100 thorough that ends by the cycle budget, so that schedules derived from max_cycles unfold); set_config_parameters(d) between "
         "runs. After every optimize rule the result of the reused instance must equal - exactly, every position, cost, "
         "fitness and rate of every generation - the result of a freshly constructed instance with the same "
         "configuration on an equal task with the same seed, and len(rates) must equal the number of cycles this run "
@@ -79,7 +79,13 @@ def execute(optimizer, steps):
 
 def make_machine(optimizer, tier, ctx):
     task_st = strategies.task_spec(max_dim=5)
-    cfg_st = strategies.config_spec(optimizer, max_cycles=(1, 6 if tier == "quick" else 12))
+    long_task_st = strategies.task_spec(max_dim=4, encodings=strategies.CONTINUOUS_ENCODINGS,
+                                        families=("sphere", "abssum", "cosprod", "altlinear"))
+    short = strategies.config_spec(optimizer, max_cycles=(1, 6 if tier == "quick" else 12), reverse_lists=True)
+    # long runs that end by the cycle budget: adaptive schedules derived from max_cycles only unfold there
+    long_ = strategies.config_spec(optimizer, max_cycles=(15, 30 if tier == "quick" else 100), stopping=False,
+                                   min_cycles=15, pop_mults=(1,), perturb=0.1)
+    cfg_st = st.one_of(short, short, short, long_)
 
     class Machine(RuleBasedStateMachine):
         def __init__(self):
